@@ -228,7 +228,9 @@ func buildOpt(spec plan.Opt) (*optInst, error) {
 		} else {
 			u, err := nurl.Parse(*spec.URL)
 			if err != nil {
-				return nil, fmt.Errorf("option %s: url %q: %v", spec.ID, *spec.URL, err)
+				// a string url.Parse rejects can still reach the library as a
+				// hand-built URL value: keep it as an opaque URL
+				u = &nurl.URL{Opaque: *spec.URL}
 			}
 			oi.url = u
 		}
